@@ -48,10 +48,7 @@ pub fn check_case(c: &FullCase, obs: &mut Obs) -> Result<(), String> {
 }
 
 pub fn decode(t: &mut Tape) -> FullCase {
-    let mut c = gen::full_case(t, &NetCfg { max_rules: 30, ..Default::default() }, 4);
-    // known finding C08-removeparam-not-serialized: excluded by construction (see probes)
-    c.rules.retain(|r| !r.contains("removeparam"));
-    c
+    gen::full_case(t, &NetCfg { max_rules: 30, ..Default::default() }, 4)
 }
 
 fn probe_removeparam() -> Result<(), String> {
@@ -96,7 +93,7 @@ pub fn real_list_slices(ctx: &mut Ctx, per_list: usize, slice_len: usize) -> Vec
         let lines: Vec<&str> = txt.lines().collect();
         for k in 0..per_list {
             let start = ((ctx.seed as usize).wrapping_mul(31) + k * 9973 * step) % lines.len().max(1);
-            let rules: Vec<String> = lines.iter().cycle().skip(start).take(slice_len).map(|s| s.to_string()).filter(|r| !r.contains("removeparam")).collect();
+            let rules: Vec<String> = lines.iter().cycle().skip(start).take(slice_len).map(|s| s.to_string()).collect();
             // requests derived from the rules themselves: host-anchored rules give URLs
             let mut reqs = vec![];
             let mut pages = vec![];
@@ -125,7 +122,6 @@ pub fn real_list_slices(ctx: &mut Ctx, per_list: usize, slice_len: usize) -> Vec
 pub fn check(ctx: &mut Ctx) {
     ctx.rule = "lists of 1-30 rules mixing every network shape (options, modifiers, tags, domains, hostname/full regexes, fusable rules) and cosmetic shape (hostnames, entities, negations, #@#, :style/:remove*, +js, generichide exceptions), debug on/off, optimise on/off; E=Engine(L), E'=Engine::new().deserialize(E.serialize_raw()); every network query under the empty and the case's tag set, csp, url_cosmetic_resources, hidden_class_id_selectors must be equal. Plus deterministic slices of the real lists under /repo/data with requests/pages derived from their own rules. Non-trivial = the original engine gives at least one non-default answer.".into();
     ctx.assumptions = vec![
-        "removeparam rules are excluded by construction while finding C08-removeparam-not-serialized is open".into(),
         "all generated lists use default permissions while finding C08-scriptlet-permission-not-serialized is open".into(),
     ];
     ctx.probe("C08-removeparam-not-serialized", json!({"rules": ["*$removeparam=utm"], "url": "https://example.com/p?utm=1&x=2"}), probe_removeparam());
